@@ -701,6 +701,9 @@ Definition has_cmd_of (cbs : list plug) (p c : str) : bool :=
   end.
 Definition vDis (d : dis) : value := L [vLS (d_all d); L (map (fun kv => L [vS (fst kv); vLS (snd kv)]) (d_per d))].
 
+Definition S_DISABLE : str := [100; 105; 115; 97; 98; 108; 101].   (* "disable" *)
+Definition S_ENABLE : str := [101; 110; 97; 98; 108; 101].           (* "enable" *)
+Definition S_OWNER : str := [79; 119; 110; 101; 114].                (* "Owner" *)
 Fixpoint hist_run (E : env) (B : behs) (K : config) (st : ostate) (steps : list value) : list value :=
   match steps with
   | [] => []
@@ -719,6 +722,12 @@ Fixpoint hist_run (E : env) (B : behs) (K : config) (st : ostate) (steps : list 
           let st' := OState (dis_of_conf conf) conf in
           L [vB true; vDis (o_d st'); vLS (o_conf st')] :: hist_run E B K st' steps'
       | tag =>
+          (* Owner's own `disable` / `enable` are commands like any other: when the table disables them (possible through
+             `config supybot.commands.disabled enable`, or `disable disable`) the line is an invalid command *)
+          let own := match tag with 0 => S_DISABLE | _ => S_ENABLE end in
+          if dis_disabled (o_d st) own S_OWNER
+          then L [vB false; vDis (o_d st); vLS (o_conf st)] :: hist_run E B K st steps'
+          else
           let o := (match tag with 0 => ODisable | _ => OEnable end) (gO gS (nth_v 1 s)) (gS (nth_v 2 s)) in
           let '(st', ok) := owner_step (has_cmd_of (e_cbs E)) st o in
           L [vB ok; vDis (o_d st'); vLS (o_conf st')] :: hist_run E B K st' steps'
